@@ -180,7 +180,7 @@ func (s *ySection) yaml(name, indent string, v *version) string {
 			case k == "ignore_only":
 				var es []string
 				for _, k2 := range s.ioKeys {
-					es = append(es, k2+": "+list(s.ioPaths[k2]))
+					es = append(es, yq(k2, 0)+": "+list(s.ioPaths[k2]))
 				}
 				parts = append(parts, "ignore_only: {"+strings.Join(es, ", ")+"}")
 			case k == "enum_zero_value_suffix":
@@ -220,7 +220,11 @@ func (s *ySection) yaml(name, indent string, v *version) string {
 		case k == "ignore_only":
 			b.WriteString(in + "ignore_only:\n")
 			for _, k2 := range s.ioKeys {
-				b.WriteString(in + "  " + k2 + ":\n")
+				if len(s.ioPaths[k2]) == 0 {
+					b.WriteString(in + "  " + yq(k2, 0) + ": []\n")
+					continue
+				}
+				b.WriteString(in + "  " + yq(k2, 0) + ":\n")
 				for i, x := range s.ioPaths[k2] {
 					b.WriteString(in + "    - " + yq(x, i) + "\n")
 				}
